@@ -252,9 +252,26 @@ fn pack_parse(base_xs: &Xstate, r: &mut crate::rng::Rng, fs: &[Field], nest: Opt
             while xs.data_depth() > 0 {
                 let _ = xs.pop_data();
             }
-            let mut steps = vec![Step::Push(Cell::Bitstr(b)), Step::Word("open-bitstr".into())];
+            // the byte order is a setting of the interpreter, not of the input: the order the first read relies on is
+            // selected BEFORE the input is opened, and an order word is only given where the order changes
+            let mut parse_steps: Vec<Step> = Vec::new();
             for f in fs {
-                steps.extend(f.parse());
+                parse_steps.extend(f.parse());
+            }
+            let mut steps: Vec<Step> = Vec::new();
+            let mut cur: Option<String> = None;
+            let first_order = parse_steps.iter().find_map(|st| match st { Step::Word(w) if w == "big" || w == "little" => Some(w.clone()), _ => None });
+            if let Some(w) = &first_order { steps.push(Step::Word(w.clone())); cur = Some(w.clone()); }
+            steps.push(Step::Push(Cell::Bitstr(b)));
+            steps.push(Step::Word("open-bitstr".into()));
+            for st in parse_steps {
+                if let Step::Word(w) = &st {
+                    if w == "big" || w == "little" {
+                        if cur.as_deref() == Some(w.as_str()) { continue; }
+                        cur = Some(w.clone());
+                    }
+                }
+                steps.push(st);
             }
             let res = exec(&mut xs, steps);
             let (v, values) = match observe(&mut xs) {
